@@ -17,7 +17,8 @@ RULE = ("valid: lattice die (unit dyadic or decimal such as 0.1/0.3/0.0025/2.5, 
         "specialised regions and 0-3 fixed netlist modules packed by construction (touching each other and the border), given as "
         "parsed tree, YAML text (flow or block), file, or 'WxH'. Oracle in Fractions: reported regions inside the die, pairwise "
         "disjoint, areas sum to the die, every Hanan cell of the exact description covered exactly once, inputs reported unchanged "
-        "with their tag. invalid: the same plus one region (or fixed rectangle) overlapping another by >= one lattice cell or "
+        "with their tag; the same after floorplanning_rectangles(), after a refinement request the die refuses, after later changes "
+        "of the netlist and for a second die of the same description object. invalid: the same plus one region (or fixed rectangle) overlapping another by >= one lattice cell or "
         "sticking out of the die by >= one unit, or overlapping an input by 0.001-0.03 unit (thin-overlap); Die(...) must raise. non-trivial = (>= 2 input regions and >= 2 ground regions) or "
         "a rejected description; distinct = distinct case.")
 ASSUMPTIONS = [
